@@ -41,6 +41,8 @@ def swarm_params(rng):
         "empty_bias": rng.choice([0.0, 0.15, 0.3, 0.6]),
         "neg_step_bias": rng.choice([0.1, 0.3, 0.5]),
         "oob_bias": rng.choice([0.0, 0.1, 0.25]),
+        "chain_rate": rng.choice([0.0, 0.1, 0.2, 0.35]),
+        "burst_rate": rng.choice([0.0, 0.3, 0.6, 0.9]),
     }
 
 
@@ -235,11 +237,13 @@ class Generator:
         return self.g_new(lengths=lens, dtype=self.rng.choice([dt.name, self.rng.choice(self.P["dtypes"])]))
 
     # -- step kinds ----------------------------------------------------------------------------
-    def g_sel(self):
+    def g_sel(self, chain=False):
         v = self.pick()
+        if chain and self.vars():
+            v = self.vars()[-1]
         if v is None or not self.room():
             return
-        if self.depth.get(v, 0) >= self.P["max_depth"] and self.rng.random() < 0.7:
+        if not chain and self.depth.get(v, 0) >= self.P["max_depth"] and self.rng.random() < 0.7:
             v = self.rng.choice(self.vars())
         n, lens, dt = self.info(v)
         rng = self.rng
@@ -274,8 +278,8 @@ class Generator:
             return rng.choice([n, n + 2, -n - 1, -n - 3]), "oob"
         return rng.randint(-n, n - 1), "in"
 
-    def g_rowget(self):
-        v = self.pick()
+    def g_rowget(self, v=None):
+        v = v or self.pick()
         if v is None:
             return
         n, lens, dt = self.info(v)
@@ -283,13 +287,13 @@ class Generator:
         self.emit({"op": "getitem", "src": v, "ix": [self.rng.choice(["int", "int", "npint"]), i]},
                   f"row[{cls}]")
 
-    def g_elem(self):
-        v = self.pick()
+    def g_elem(self, v=None, form=None):
+        v = v or self.pick()
         if v is None:
             return
         rng = self.rng
         n, lens, dt = self.info(v)
-        form = rng.choice(["ij", "ij", "lists", "rows_j", "i_cols"])
+        form = form or rng.choice(["ij", "ij", "lists", "rows_j", "i_cols"])
         if form == "ij":
             i, ci = self._row_int(n)
             L = lens[i] if (-n <= i < n) else 3
@@ -313,9 +317,26 @@ class Generator:
             ix = ["tup", ["list", rs], ["list", cs]]
             cls = "lists"
         elif form == "rows_j":
-            rs, rcls = gen_rowsel(rng, n, self.P)
-            m = min(lens, default=0)
-            j = rng.randint(-max(m, 1), max(m, 1))
+            if n and max(lens) > 0 and rng.random() < 0.75:
+                # rows long enough for column j (so that the read is accepted), as list / mask / slice
+                j = rng.randint(0, max(lens) - 1)
+                rows = [r for r in range(n) if lens[r] > j]
+                if rng.random() < 0.4:
+                    j = j - min(lens[r] for r in rows) if rng.random() < 0.5 else -1
+                    rows = [r for r in rows if lens[r] >= -j]
+                how = rng.choice(["list", "mask", "sub"])
+                if how == "mask":
+                    rs, rcls = ["mask", [1 if r in rows else 0 for r in range(n)]], "mask"
+                elif how == "sub":
+                    rs, rcls = ["list", [rng.choice(rows) for _ in range(rng.randint(1, 4))]], "list"
+                else:
+                    rs, rcls = ["list", rows], "list"
+                if len(rows) == n and rng.random() < 0.5:
+                    rs, rcls = ["sl", None, None, rng.choice([None, -1])], "sl"
+            else:
+                rs, rcls = gen_rowsel(rng, n, self.P)
+                m = min(lens, default=0)
+                j = rng.randint(-max(m, 1), max(m, 1))
             ix = ["tup", rs, ["int", j]]
             cls = "rows_j:" + rcls
         else:
@@ -441,11 +462,11 @@ class Generator:
               "keepdims": (rng.random() < 0.25 and axis is not None and via != "ufunc")}
         self.emit(st, f"reduce:{f}:{via}:{'all' if axis is None else 'row'}")
 
-    def g_colagg(self):
-        v = self.pick()
+    def g_colagg(self, v=None, f=None):
+        v = v or self.pick()
         if v is None:
             return
-        f = self.rng.choice(["sum0", "mean0", "col_counts", "colvals"])
+        f = f or self.rng.choice(["sum0", "mean0", "col_counts", "colvals"])
         st = {"op": "colagg", "src": v, "f": f}
         if f == "colvals":
             m = max(self.info(v)[1], default=0)
@@ -697,6 +718,29 @@ class Generator:
         self.emit({"op": "assign", "tgt": t, "ix": ix, "value": value}, f"assign[{cls}]={k}")
 
     # -- driver --------------------------------------------------------------------------------
+    def g_chain(self):
+        """A selection chain: selections of selections, each applied to the previous (still unread)
+        result - the compounding that C06 is about - optionally followed by a burst of reads that do
+        not materialise (element / column reads), which therefore all see the compounded view."""
+        rng = self.rng
+        depth = rng.randint(1, self.P["max_depth"])
+        last = None
+        for _ in range(depth):
+            before = self.n
+            self.g_sel(chain=True)
+            if f"v{before}" not in self.ex.env:
+                break
+            last = f"v{before}"
+        if last is not None and rng.random() < self.P["burst_rate"]:
+            for _ in range(rng.randint(1, 3)):
+                k = rng.choice(["ij", "lists", "rows_j", "rows_j", "i_cols", "colvals", "colvals", "col_counts", "row"])
+                if k in ("colvals", "col_counts"):
+                    self.g_colagg(last, k)
+                elif k == "row":
+                    self.g_rowget(last)
+                else:
+                    self.g_elem(last, k)
+
     def generate(self):
         rng = self.rng
         self.g_new()
@@ -704,9 +748,14 @@ class Generator:
             self.g_new()
         kinds = sorted(self.P["weights"])
         ws = [self.P["weights"][k] for k in kinds]
+        if rng.random() < 0.8:
+            self.g_chain()
         guard = 0
         while len(self.prog) < self.P["n_steps"] and guard < 60:
             guard += 1
+            if rng.random() < self.P["chain_rate"] and self.room():
+                self.g_chain()
+                continue
             k = rng.choices(kinds, ws)[0]
             getattr(self, "g_" + k)()
         return self.prog
